@@ -147,6 +147,34 @@ RXV_SUBCOMMAND(c11) {
 			if (memcmp(want, big.p(), 20)) R.violation("C11:model:streaming-digest", "{\"what\":\"final into larger buffer\"}");
 			R.count("invalid_calls_rejected", 8);
 		}
+		{   // sweeps of invalid lengths (a length check done after narrowing to 8 or 32 bits would let some through):
+			// outlen 65..4096 and values with high bits set, through the one-shot wrapper, init and init_key (+ update + final);
+			// keylen 65..4096 and high-bit values
+			std::vector<size_t> lens; for (size_t v = 65; v <= 4096; ++v) lens.push_back(v);
+			for (size_t v : { (size_t)1 << 8, ((size_t)1 << 8) | 32, ((size_t)1 << 16) | 64, ((size_t)1 << 32) | 32, ((size_t)1 << 32), (size_t)-1, (size_t)-64 + 0, ~(size_t)0 - 191 /* ...FF40 */ }) lens.push_back(v);
+			for (size_t outlen : lens) {
+				Canaried out(128);
+				int rc; { ip::Api s("blake2b-invalid"); rc = blake2b(out.p(), outlen, msg, 3, nullptr, 0); }
+				if (rc == 0 || !out.intact(0)) { R.violation("C11:contract:invalid-call-accepted:oneshot-outlen", "{\"outlen\":" + std::to_string(outlen) + "}"); break; }
+				blake2b_state S; int a, b = -1, c = -1;
+				{ ip::Api s("blake2b-invalid"); a = blake2b_init(&S, outlen); if (a == 0) { b = blake2b_update(&S, msg, 3); c = blake2b_final(&S, out.p(), 128); } }
+				if (a == 0 || !out.intact(0)) { R.violation("C11:contract:invalid-call-accepted:init-outlen", "{\"outlen\":" + std::to_string(outlen) + ",\"init\":" + std::to_string(a) + ",\"update\":" + std::to_string(b) + ",\"final\":" + std::to_string(c) + "}"); break; }
+				{ ip::Api s("blake2b-invalid"); a = blake2b_init_key(&S, outlen, key, 16); if (a == 0) { blake2b_update(&S, msg, 3); blake2b_final(&S, out.p(), 128); } }
+				if (a == 0 || !out.intact(0)) { R.violation("C11:contract:invalid-call-accepted:init_key-outlen", "{\"outlen\":" + std::to_string(outlen) + "}"); break; }
+				R.count("invalid_calls_rejected", 3);
+			}
+			std::vector<uint8_t> bigKey(4200, 7);
+			for (size_t keylen : lens) {
+				Canaried out(128);
+				const void* kp = keylen <= bigKey.size() ? bigKey.data() : key; // huge lengths: never dereferenced by a correct implementation
+				int rc; { ip::Api s("blake2b-invalid"); rc = blake2b(out.p(), 32, msg, 3, kp, keylen); }
+				if (rc == 0 || !out.intact(0)) { R.violation("C11:contract:invalid-call-accepted:oneshot-keylen", "{\"keylen\":" + std::to_string(keylen) + "}"); break; }
+				blake2b_state S; int a; { ip::Api s("blake2b-invalid"); a = blake2b_init_key(&S, 32, kp, keylen); }
+				if (a == 0) { R.violation("C11:contract:invalid-call-accepted:init_key-keylen", "{\"keylen\":" + std::to_string(keylen) + "}"); break; }
+				R.count("invalid_calls_rejected", 2);
+			}
+			R.evaluation(2 * lens.size());
+		}
 	}
 	// ---- commitment
 	{
